@@ -139,7 +139,7 @@ def make_hooks(s, record):
             for label, rd, docs in (("in-memory segment", bw._get_ram_reader(), memdocs),
                                     ("committed + in-memory segments", bw.reader(), mi.docs)):
                 try:
-                    res = compare_reader(rd, docs, mi.schema, mi.field_names, parts=("docs", "terms"))
+                    res = compare_reader(rd, docs, mi.schema, mi.field_names, parts=("docs", "terms", "columns"))
                     if res:
                         raise Violation("postings_exact", "%s: %s" % (label, res[1]), sig="postings_exact:memory:%s" % res[0])
                     if not rd.has_deletions():
